@@ -49,6 +49,10 @@ pub struct TrainSpec {
     /// through `set_loco_vec` (a consist object re-used for another composition)
     #[serde(default)]
     pub late_battery: bool,
+    /// the train's consist runs with limit checking off (`set_assert_limits(false)` on the
+    /// finished sim): levels must agree all the same
+    #[serde(default)]
+    pub consist_limits_off: bool,
 }
 
 impl CarSpec {
@@ -361,6 +365,7 @@ pub fn gen_train(g: &mut Gen, o: &TrainOpts) -> TrainSpec {
         init_time: 0.0,
         hybrids: 0,
         late_battery: false,
+        consist_limits_off: false,
     };
     if o.allow_overrides {
         if g.bool(0.15) {
